@@ -433,3 +433,70 @@ def run(ctx):
             ctx.bad(R_sz, "mcnk|%s|convention" % name, "%s:%d" % (where[0].file, where[1]), "the serializer stores %s = `%s` (%s the 8-byte sub-chunk header) but the reader, after reading that header, takes %s bytes" % (
                 name, wtxt[:50], "without" if k_w == 8 else "including", "%s - 8" % name if j_r == 8 else name),
                     "the reader consumes %d bytes %s than were written for this sub-chunk: at the end of the file the tile no longer parses (failed to fill whole buffer), elsewhere the neighbouring sub-chunk is misread" % (8, "more" if k_w + j_r < 8 else "fewer"))
+
+    # the MCNK header is a copy of the source header: every field set only when a sub-chunk is present is cleared first
+    R_clr = ctx.rule("C14.conditional-header-fields-cleared-first", "in the MCNK writer every `header.F` assigned inside an `if`/`if let` has an unconditional `header.F = ..` at function level (or an else assignment)", floor=8)
+    for f in adt.fn_list:
+        if f.kind == "Closure" or not f.hir or "builder::serializer" not in f.path:
+            continue
+        blk = hirq.strip(f.hir["body"])
+        if blk.get("k") != "block":
+            continue
+        tops = blk.get("stmts", []) + ([blk["e"]] if blk.get("e") else [])
+
+        def hfields(n):
+            out = {}
+            for x in hirq.walk(n, into_closures=False):
+                if x.get("k") == "assign":
+                    l = hirq.strip(x["l"])
+                    if l.get("k") == "field" and hirq.render(hirq.strip(l["e"])) == "header":
+                        out.setdefault(l["name"], x["ln"])
+            return out
+        uncond = {}
+        for st in tops:
+            if st.get("k") == "assign":
+                uncond.update(hfields(st))
+        cond = {}
+        for st in tops:
+            if st.get("k") == "if":
+                t_ = hfields(st["then"])
+                e_ = hfields(st["else"]) if st.get("else") is not None else {}
+                for k_, ln in t_.items():
+                    if k_ not in e_:
+                        cond.setdefault(k_, ln)
+        if not cond:
+            continue
+        ctx.saw_fn(f)
+        for k_, ln in sorted(cond.items()):
+            if k_ in uncond:
+                ctx.ok(R_clr, {"fn": norm(f.path), "field": k_})
+            else:
+                ctx.bad(R_clr, "%s|%s|not-cleared" % (norm(f.path).split("::")[-1], k_), "%s:%d" % (f.file, ln), "header.%s is set only when its sub-chunk is written and is never cleared otherwise" % k_,
+                        "the header starts as a copy of the parsed one: after the sub-chunk was removed the stale offset is written and names bytes outside this chunk — the reparse returns phantom data or fails")
+
+    # the reader's sanity check on a record and the type's own validity predicate accept the same values
+    R_val = ctx.rule("C14.reader-check-equals-validity-predicate", "MclqChunk::read_options rejects exactly what MclqChunk::has_valid_heights rejects on the (min, max) ordering", floor=1)
+    from .. import cmpeval
+    rd = next((f for f in adt.fn_list if f.hir and f.kind != "Closure" and re.search(r"MclqChunk as binrw::binread::BinRead>::read_options$|mclq::MclqChunk.*read_options$", f.path)), None)
+    hv = next((f for f in adt.fn_list if f.hir and f.kind != "Closure" and norm(f.path).endswith("mclq::MclqChunk::has_valid_heights")), None)
+    if rd is None or hv is None:
+        ctx.bad(R_val, "mclq|missing", "-", "MclqChunk::read_options or has_valid_heights not found", "anchor gone")
+    else:
+        def order_table(fn):
+            for x in hirq.walk(fn.hir["body"]):
+                if x.get("k") == "bin" and x["op"] in ("<", "<=", ">", ">="):
+                    ats = cmpeval.atoms(x)
+                    if len(ats) == 2 and any("min_height" in a for a in ats) and any("max_height" in a for a in ats) and not any("abs" in a for a in ats):
+                        lo = next(a for a in ats if "min_height" in a)
+                        hi = next(a for a in ats if "max_height" in a)
+                        return cmpeval.truth_table(x, lo, hi), hirq.render(x), x["ln"]
+            return None
+        ta, tb = order_table(rd), order_table(hv)
+        ctx.saw_fn(rd)
+        if ta is None or tb is None:
+            ctx.bad(R_val, "mclq|shape", rd.where, "min/max ordering test not found in %s" % ("read_options" if ta is None else "has_valid_heights"), "shape changed")
+        elif ta[0] == tb[0]:
+            ctx.ok(R_val, {"reader": ta[1], "predicate": tb[1], "table": ta[0]})
+        else:
+            ctx.bad(R_val, "mclq|min-max-ordering", "%s:%d" % (rd.file, ta[2]), "the reader accepts `%s` (%s) but the type's validity predicate is `%s` (%s)" % (ta[1], ta[0], tb[1], tb[0]),
+                    "a record the writer/validator considers valid (a level liquid: min == max) is rejected on read — and the MCNK parser swallows that error, so the liquid silently disappears after build→serialise→parse")
